@@ -216,15 +216,21 @@ impl Property for C20 {
         let share = if tier == Tier::Quick { 12 } else { 8 };
         let eintr_at = if rng.chance(1, share) { Some(rng.range(1, 2) as u32) } else { None };
         let big_hdr = rng.below(6) as u8;
-        let big = if rng.chance(1, 150) {
+        let mut big_hdr = big_hdr;
+        let big = if rng.chance(1, 300) {
+            // a loadable module whose disassembly has a round number of lines (4 header lines + count + the final OpNop)
+            big_hdr = 0;
+            let lines = *rng.pick(&[10_000u32, 65_536, 100_000, 100_000, 200_000, 131_072]);
+            Some((lines - 4 - *rng.pick(&[0u32, 0, 0, 1]), u32::MAX))
+        } else if rng.chance(1, 150) {
             // around 64 KiB and 1 MiB (8 bytes per instruction): cheap enough to be common, with every header variant
             // (and line counts of the disassembly around round numbers: 4 header lines + one line per instruction)
             let count = *rng.pick(&[8_190u32, 8_192, 9_995, 9_996, 65_531, 65_532, 99_995, 99_996, 99_997, 131_068, 131_070, 131_071, 131_072, 131_073, 140_000, 199_996]);
-            Some((count, *rng.pick(&[0u32, 0x0002_0011, 0x0001_FFFF, 0x0001_0000])))
+            Some((count, *rng.pick(&[u32::MAX, u32::MAX, 0u32, 0x0002_0011, 0x0001_FFFF, 0x0001_0000])))
         } else if rng.chance(1, 4000) {
             // beyond 16 MiB
             let count = *rng.pick(&[2_097_149u32, 2_097_150, 2_097_152, 2_200_000]);
-            Some((count, *rng.pick(&[0u32, 0x0002_0011, 0x0001_FFFF, 0x0001_0000])))
+            Some((count, *rng.pick(&[u32::MAX, 0u32, 0x0002_0011, 0x0001_FFFF, 0x0001_0000])))
         } else {
             None
         };
@@ -252,7 +258,10 @@ impl Property for C20 {
                     w.push(0x0002_0011);
                     w.push(1);
                 }
-                w.push(*tail);
+                // (u32::MAX: no trailing word at all - the module ends cleanly and loads)
+                if *tail != u32::MAX {
+                    w.push(*tail);
+                }
                 (words_to_bytes(&w), vec![])
             }
             (None, Source::Raw(b)) => (b.clone(), vec![]),
